@@ -140,3 +140,10 @@ Proof.
   - repeat constructor; vm_compute; try discriminate; auto; try (split; discriminate).
   - vm_compute. reflexivity.
 Qed.
+
+(* ---- the model's state space is the code's declared state ----
+   (theories/StateInst.v: package-level variables and struct fields listed by tools/facts on every
+   run; the models keep no state between operations other than these components) *)
+From Whawty Require StateInst.
+Theorem C01_store_state_inventory : StateInst.store_state_inventory.
+Proof. exact StateInst.store_state_inventory_holds. Qed.
